@@ -546,6 +546,8 @@ def c12_models():
                vars={"x": ["output", 0.3], "c1": ["state", 0.0], "c2": ["state", 0.0], "g": ["const", 0.8], "k": ["const", 1.5]})
     out.append(("J8-diamond-algebraic", dict(), model([dia], {"p": dict(ops=["dm"])})))
     for t, f, m in dde_models():
+        if t.startswith("H7"):
+            continue        # cannot be compiled at all on the pinned tree (known finding KF-C10-negative-coefficient-delayed-term)
         out.append((t, dict(f, dde=True), m))
     return out
 
